@@ -675,7 +675,7 @@ def r8(F, R):
     # nobody else in the attempt tree sends events directly
     direct = [(b, s) for b in tree for s, t in roles.sends(F, [b]) if b.key not in emit_fns and "event::Event" in (op_fn(t["func"]) or {}).get("full", "")]
     R.check(not direct, "no-direct-sends", None, "", f"direct sends outside the emitting helpers: {[(b.short, s.loc) for b, s in direct]}")
-    R.floor(4)
+    R.floor(3)   # >= 1 send site + the two global clauses (how many helpers hold a raw `unbounded_send` is a matter of style)
 
 
 def r9(F, R):
